@@ -26,7 +26,7 @@ EXPLANATION = ("Every obligation symbolically executes the real methods of the r
 ASSUMPTIONS = [
     "floats are mathematical reals (T7); log10/pow10 are uninterpreted with: strictly increasing, inverse pair, sign; "
     "product rule log10(a*b)=log10 a+log10 b used as ground instances where stated",
-    "shadowing (random) is switched off - outside the property",
+    "shadowing: the Gaussian sample is an abstract callee (any real value); monotonicity and the inverse are stated for the deterministic part",
     "numeric enclosures used for Okumura-Hata: log10(30) in [1.477,1.4772], log10(200) in [2.301,2.3011] (checked natively on every run)",
 ]
 TRUSTED_BASE = ["log/pow axioms (ground instances listed under axioms_instantiated)"]
@@ -130,6 +130,70 @@ def ob_general(model):
             return {"confirmed": bad, "inputs": mv, "observed": {str(k): v for k, v in out.items()}}
         except Exception as e:
             return {"confirmed": False, "error": repr(e)}
+    return verify(body, replay=rp)
+
+
+@obligation("general/policy_with_shadowing", params=[{"model": m} for m in ("general", "freespace", "metis")], timeout=200,
+            desc="shadowing switched ON (use_shadow_bool True, symbolic sigma_shadow >= 0; the Gaussian sample is an ARBITRARY real - the "
+                 "library routine np.random.standard_normal as an abstract callee): for every distance, policy and sample, calc_path_loss_dB "
+                 "either raises RuntimeError (policy off and deterministic loss + shadow < 0) or returns max-clamped deterministic loss + "
+                 "sigma * sample >= 0; its linear value is 10^(-dB/10) in (0, 1]: the clauses 'loss >= 0 dB, linear in (0,1], too small "
+                 "either raises or clamps' hold for the value the model RETURNS, shadowing included")
+def ob_policy_shadow(model):
+    def body(c, it):
+        import pyphysim.channels.pathloss as m
+        if model == "metis":
+            o = it.call(m.PathLossMetisPS7, [])
+        else:
+            o = dict(_models(c, it))[model]
+        d = c.var("d", "real")
+        c.assume(d > 0)
+        if model == "metis":
+            c.assume(d >= 1)          # (the indoor model's own requirement on distances is checked in metis/*)
+        handle = c.var("handle", "bool")
+        sig, z = c.var("sigma", "real"), c.var("z", "real")
+        c.assume(sig >= 0)
+        c.inputs.update(d=d, handle=handle, sigma=sig, z=z)
+        it.setattr(o, "handle_small_distances_bool", bool(handle))
+        it.setattr(o, "use_shadow_bool", True)
+        it.setattr(o, "sigma_shadow", sig)
+        draws = []
+        it.models[np.random.standard_normal] = lambda interp, *a, **k: (draws.append(a) or z)
+        det = _call(it, o, "_calc_deterministic_path_loss_dB", d)
+        tot = lift(det) + sig * z
+        goals = []
+        try:
+            p = _call(it, o, "calc_path_loss_dB", d)
+        except PyRaise as pr:
+            return [Goal("only RuntimeError raised", isinstance(pr.exc, RuntimeError)),
+                    Goal("raises only when (deterministic loss + shadow) < 0 and the policy is off", (tot < 0) & ~lift(handle))]
+        goals.append(Goal("one Gaussian sample drawn", len(draws) == 1))
+        goals.append(Goal("returned dB == deterministic + sigma * sample, clamped at 0 under the policy",
+                          ((tot >= 0) & (lift(p) == tot)) | (lift(handle) & (tot < 0) & (lift(p) == 0))))
+        goals.append(Goal("returned dB >= 0", lift(p) >= 0))
+        return goals
+
+    def rp(mv):
+        import pyphysim.channels.pathloss as m
+        try:
+            for seed in range(40):
+                for o in (m.PathLossFreeSpace(2, 150.0), m.PathLossGeneral(2.0, 1.0), m.PathLossMetisPS7()):
+                    o.use_shadow_bool = True
+                    o.sigma_shadow = 8.0
+                    for handle in (False, True):
+                        o.handle_small_distances_bool = handle
+                        np.random.seed(seed)
+                        dist = 1.0 if isinstance(o, m.PathLossMetisPS7) else 0.0005
+                        try:
+                            db = float(o.calc_path_loss_dB(dist))
+                        except RuntimeError:
+                            continue
+                        if not (db >= 0):
+                            return {"confirmed": True, "model": type(o).__name__, "distance": dist, "sigma_shadow": 8.0, "numpy seed": seed,
+                                    "clamp policy": handle, "returned loss in dB": db}
+            return {"confirmed": False, "note": "real models never return a negative loss with shadowing"}
+        except Exception as e:
+            return {"confirmed": False, "error": "replay crashed: %r" % (e,)}
     return verify(body, replay=rp)
 
 
@@ -306,12 +370,16 @@ def ob_metis():
     return verify(body, timeout_ms=60000)
 
 
-@obligation("metis/grids_of_walls_symbolic_distances", params=[{"shape": sh} for sh in ("3", "2x2", "2x1x2")], timeout=200,
+@obligation("metis/grids_of_walls_symbolic_distances", params=[{"shape": sh} for sh in ("3", "2x2", "2x1x2")] +
+            [{"shape": "2x3", "wshape": "2x1"}, {"shape": "2x3", "wshape": "3"}, {"shape": "2x2x2", "wshape": "2x2x1"}, {"shape": "2x2", "wshape": "1"}], timeout=200,
             desc="METIS PS7 on an array of SYMBOLIC distances with a per-link wall count (concrete pattern mixing 0 and N walls inside "
                  "every row): every element of _calc_deterministic_path_loss_dB equals the scalar formula for its own distance and "
-                 "its own wall count, for all distances and carrier frequencies")
-def ob_metis_grid(shape):
+                 "its own wall count, for all distances and carrier frequencies; wshape: the wall counts are given in a SMALLER array that "
+                 "numpy broadcasting expands to the distances' shape (per-access-point walls as a column, per-floor walls with a trailing "
+                 "axis of size 1, a single-element array)")
+def ob_metis_grid(shape, wshape=None):
     shp = tuple(int(x) for x in shape.split("x"))
+    wshp = tuple(int(x) for x in wshape.split("x")) if wshape else shp
 
     def body(c, it):
         fc = c.var("fc", "real")
@@ -319,12 +387,14 @@ def ob_metis_grid(shape):
         o = _mk(it, "PathLossMetisPS7", 2000.0)
         it.setattr(o, "fc", fc)
         D = np.empty(shp, dtype=object)
-        W = np.zeros(shp, dtype=int)
+        Wg = np.zeros(wshp, dtype=int)
         for n, pos in enumerate(np.ndindex(*shp)):
             D[pos] = c.var("d" + "_".join(map(str, pos)), "real")
             c.assume(D[pos] > 0)
-            W[pos] = (0, 2, 1, 0, 3, 0, 1, 2)[(n + (pos[0] if len(pos) > 1 else 0)) % 8]
-        G = _call(it, o, "_calc_deterministic_path_loss_dB", D, num_walls=W)
+        for n, pos in enumerate(np.ndindex(*wshp)):
+            Wg[pos] = (0, 2, 1, 0, 3, 0, 1, 2)[(n + (pos[0] if len(pos) > 1 else 0)) % 8]
+        W = np.broadcast_to(Wg, shp)                  # what "per-link wall count" means for a smaller wall array
+        G = _call(it, o, "_calc_deterministic_path_loss_dB", D, num_walls=Wg.copy())
         goals = [Goal("result has the shape of the distances", np.shape(G) == shp)]
         if np.shape(G) != shp:
             return goals
@@ -341,10 +411,11 @@ def ob_metis_grid(shape):
             o = m.PathLossMetisPS7(2400.0)
             rr = np.random.RandomState(5)
             D = 10 ** rr.uniform(0.3, 2.5, shp)
-            W = np.zeros(shp, dtype=int)
-            for n, pos in enumerate(np.ndindex(*shp)):
-                W[pos] = (0, 2, 1, 0, 3, 0, 1, 2)[(n + (pos[0] if len(pos) > 1 else 0)) % 8]
-            G = np.asarray(o._calc_deterministic_path_loss_dB(D, num_walls=W))
+            Wg = np.zeros(wshp, dtype=int)
+            for n, pos in enumerate(np.ndindex(*wshp)):
+                Wg[pos] = (0, 2, 1, 0, 3, 0, 1, 2)[(n + (pos[0] if len(pos) > 1 else 0)) % 8]
+            W = np.broadcast_to(Wg, shp)
+            G = np.asarray(o._calc_deterministic_path_loss_dB(D, num_walls=Wg.copy()))
             for pos in np.ndindex(*shp):
                 sc = float(o._calc_deterministic_path_loss_dB(float(D[pos]), num_walls=int(W[pos])))
                 if G.shape != shp or (not (abs(G[pos] - sc) <= 1e-9)):
